@@ -35,6 +35,12 @@ type c11Case struct {
 	Conn int `json:"conn"`
 	// CloseMs > 0: closing a connection takes the client's transport this long (a closing handshake, a lingering socket)
 	CloseMs int `json:"transport_close_takes_ms,omitempty"`
+	// DropCount / IdleClose (fault server-drops-some-connections): the server drops DropCount consecutive connections,
+	// starting with the At-th one dialled, in the way Kind says, and serves every other connection normally; with
+	// IdleClose it closes a connection after every reply it sent on it (a server with a very short idle time-out), so
+	// that every call begins on a connection that is gone
+	DropCount int  `json:"drop_count,omitempty"`
+	IdleClose bool `json:"server_closes_after_every_reply,omitempty"`
 }
 
 func faultErr(kind, op string) error {
@@ -52,6 +58,8 @@ type c11Server struct {
 	holdReplies chan struct{} // when set, replies to calls wait until it is closed
 	held        chan struct{} // signalled when a reply is being held
 	dropFrom    int           // connections with index >= dropFrom are dropped by the server (-1: never)
+	dropCount   int           // > 0: only this many connections are dropped, the following ones are served
+	idleClose   bool          // close a connection after every (non-discovery) reply
 	dropKind    string        // on-accept | after-header | after-request
 	mu          sync.Mutex
 	counts      map[string]int // transmissions per identifier
@@ -85,7 +93,7 @@ func (s *c11Server) serve(c *memnet.Conn, idx int) {
 		_, _ = readFrame(c)
 		return
 	}
-	if s.dropFrom >= 0 && idx >= s.dropFrom {
+	if s.dropFrom >= 0 && idx >= s.dropFrom && (s.dropCount == 0 || idx < s.dropFrom+s.dropCount) {
 		switch s.dropKind {
 		case "on-accept", "on-accept-noticed":
 			c.Close()
@@ -116,9 +124,11 @@ func (s *c11Server) serve(c *memnet.Conn, idx int) {
 		}
 		req, _ := ttlvref.Parse(raw, ttlvref.Lenient)
 		var reply []byte
+		isDiscovery := false
 		if op := find(req, tOperation); op != nil && op.I == 0x1E {
 			// discovery: advertise 1.4 .. 1.0
 			reply = buildDiscover(req)
+			isDiscovery = true
 		} else {
 			idn := find(req, 0x420094)
 			if idn != nil {
@@ -140,7 +150,7 @@ func (s *c11Server) serve(c *memnet.Conn, idx int) {
 		}
 		s.mu.Lock()
 		s.replies++
-		closeNow := s.closeAt != 0 && s.replies == s.closeAt
+		closeNow := s.closeAt != 0 && s.replies == s.closeAt || s.idleClose && !isDiscovery
 		s.mu.Unlock()
 		if closeNow {
 			c.Close()
@@ -179,6 +189,9 @@ func c11Bubble(c c11Case) c11Result {
 	}
 	if c.Dir == "negotiation-fails-after-redial" {
 		srv.negFail = c.Kind
+	}
+	if c.Dir == "server-drops-some-connections" {
+		srv.dropFrom, srv.dropKind, srv.dropCount, srv.idleClose = c.At, c.Kind, c.DropCount, c.IdleClose
 	}
 	if c.Dir == "close-during-redial" {
 		srv.closeAt = c.At // the server drops the first connection after its At-th reply: the next call has to re-dial
@@ -224,7 +237,7 @@ func c11Bubble(c c11Case) c11Result {
 		srv.mu.Lock()
 		srv.srvConns = append(srv.srvConns, b)
 		srv.mu.Unlock()
-		if srv.dropFrom >= 0 && n >= srv.dropFrom && srv.dropKind == "on-accept-noticed" {
+		if srv.dropFrom >= 0 && n >= srv.dropFrom && (srv.dropCount == 0 || n < srv.dropFrom+srv.dropCount) && srv.dropKind == "on-accept-noticed" {
 			// dropped before the dial returns; together with the yield hook below the client's read loop has seen
 			// the EOF before the request is handed to the write loop (with "on-accept" the scheduler decides)
 			b.Close()
@@ -233,7 +246,7 @@ func c11Bubble(c c11Case) c11Result {
 		go srv.serve(b, n)
 		return a, nil
 	}
-	if c.Dir == "server-drops-connections" && c.Kind == "on-accept-noticed" {
+	if (c.Dir == "server-drops-connections" || c.Dir == "server-drops-some-connections") && c.Kind == "on-accept-noticed" {
 		kmipclient.SetVerifYield(func(point string) {
 			if point == "kmipclient.conn.send.loaded" {
 				time.Sleep(time.Millisecond) // fake time: every other goroutine runs until it blocks
@@ -311,7 +324,8 @@ func c11Bubble(c c11Case) c11Result {
 		if !o.done {
 			// nothing can make progress any more and the call has not returned; let fake time run in case a timer is pending
 			mu.Unlock()
-			time.Sleep(10 * time.Second)
+			// (a transport whose Close takes time is closed once per connection the call gives up: that is not a hang)
+			time.Sleep(10*time.Second + 12*time.Duration(c.CloseMs)*time.Millisecond)
 			synctest.Wait()
 			mu.Lock()
 		}
@@ -603,7 +617,7 @@ func c11Bubble(c c11Case) c11Result {
 			if r != nil {
 				return *r
 			}
-			if !ok && c.Reachable && c.Dir != "hook-close" && c.Dir != "server-drops-connections" && (cloneConn != c.Conn || c.Dir == "none") && (c.Dir != "server-close-after-reply") {
+			if !ok && c.Reachable && c.Dir != "hook-close" && c.Dir != "server-drops-connections" && c.Dir != "server-drops-some-connections" && (cloneConn != c.Conn || c.Dir == "none") && (c.Dir != "server-close-after-reply") {
 				return fail("clone-unusable", "a fresh clone on a reachable server failed its first call")
 			}
 			_ = safely(func() error { return clone.Close() })
@@ -689,6 +703,19 @@ func c11Space() []c11Case {
 						add("negotiation-fails-after-redial", 0, k)
 					}
 				}
+				if reachable && (fu == "again" || fu == "twice") {
+					// a server that drops 1..4 consecutive connections (a call spends up to all of its re-transmissions on them) and
+					// serves the others, optionally closing every connection right after the reply
+					for at := 1; at <= 2; at++ {
+						for n := 1; n <= 4; n++ {
+							for _, k := range []string{"on-accept-noticed", "after-header", "after-request"} {
+								for _, idle := range []bool{false, true} {
+									out = append(out, c11Case{Enforced: enforced, Dir: "server-drops-some-connections", At: at, Kind: k, Reachable: true, FollowUp: fu, DropCount: n, IdleClose: idle})
+								}
+							}
+						}
+					}
+				}
 				if reachable {
 					// a server that keeps accepting and dropping connections (from the first, second or third one on)
 					for at := 0; at <= 2; at++ {
@@ -705,7 +732,7 @@ func c11Space() []c11Case {
 
 func TestC11Faults(t *testing.T) {
 	const name = "TestC11Faults"
-	rec := evid.New("C11", name, "fault enumeration (single caller, synctest bubble): every Read index 1..7 and Write index 1..3 of the first connection x {EOF, closed, reset, short write, reset reported after the data was delivered} (also on a transport whose Close takes 500 ms, the follow-up being made while the failed connection is still closing), the server closing right after its 1st..3rd reply, a server that keeps accepting and dropping every connection (on accept, after 8 bytes, after the whole request) from the 1st/2nd/3rd connection on, Close() landing while a call is re-dialling (the dial then succeeds), the first connection lost during version negotiation and the negotiation failing on the replacement (Dial fails: nothing it opened may remain), the server going away exactly when the k-th request is about to be handed to the write loop, and the k-th call abandoned (context cancelled) between send and receive once its response has been read off the wire (yield-point hooks), "+
+	rec := evid.New("C11", name, "fault enumeration (single caller, synctest bubble): every Read index 1..7 and Write index 1..3 of the first connection x {EOF, closed, reset, short write, reset reported after the data was delivered} (also on a transport whose Close takes 500 ms, the follow-up being made while the failed connection is still closing), the server closing right after its 1st..3rd reply, a server that keeps accepting and dropping every connection (on accept, after 8 bytes, after the whole request) from the 1st/2nd/3rd connection on, a server that drops 1..4 consecutive connections and serves the others (optionally closing every connection right after its reply), Close() landing while a call is re-dialling (the dial then succeeds), the first connection lost during version negotiation and the negotiation failing on the replacement (Dial fails: nothing it opened may remain), the server going away exactly when the k-th request is about to be handed to the write loop, and the k-th call abandoned (context cancelled) between send and receive once its response has been read off the wire (yield-point hooks), "+
 		"x {with, without version negotiation} x {server reachable afterwards, not} x follow-up {call again, twice, Close, Close then call, Clone}; two calls precede the follow-up; "+
 		"oracle: every call and Dial/Close/Clone returns (quiescence = hang verdict), response complete and its own or an error, never two consecutive failed calls on a reachable server, <= 4 transmissions per request and a bounded number of connections per call, a closed client serves nothing and dials nothing, census of client connection goroutines 0 at the end; "+
 		"non-trivial = a fault is injected; distinct by case").Attach(t)
@@ -751,13 +778,18 @@ func TestC11Random(t *testing.T) {
 	rapid.Check(t, func(rt *rapid.T) {
 		c := c11Case{Enforced: rapid.Bool().Draw(rt, "enforced"), Reachable: rapid.IntRange(0, 3).Draw(rt, "reachable") > 0,
 			FollowUp: rapid.SampledFrom([]string{"again", "twice", "close", "close-then-call", "clone"}).Draw(rt, "followup"),
-			Dir:      rapid.SampledFrom([]string{"read", "read", "write", "server-close-after-reply", "hook-close"}).Draw(rt, "dir"),
+			Dir:      rapid.SampledFrom([]string{"read", "read", "write", "server-close-after-reply", "hook-close", "server-drops-some-connections"}).Draw(rt, "dir"),
 			Conn:     rapid.IntRange(0, 2).Draw(rt, "conn")}
 		switch c.Dir {
 		case "read":
 			c.At, c.Kind = rapid.IntRange(1, 12).Draw(rt, "at"), rapid.SampledFrom([]string{"eof", "closed", "reset"}).Draw(rt, "kind")
 		case "write":
 			c.At, c.Kind = rapid.IntRange(1, 5).Draw(rt, "at"), rapid.SampledFrom([]string{"closed", "reset", "short-write", "reset-after-delivery"}).Draw(rt, "kind")
+		case "server-drops-some-connections":
+			c.Reachable, c.Conn = true, 0
+			c.At, c.DropCount = rapid.IntRange(1, 3).Draw(rt, "at"), rapid.IntRange(1, 5).Draw(rt, "dropcount")
+			c.Kind = rapid.SampledFrom([]string{"on-accept-noticed", "after-header", "after-request"}).Draw(rt, "kind")
+			c.IdleClose = rapid.Bool().Draw(rt, "idleclose")
 		default:
 			c.At = rapid.IntRange(1, 5).Draw(rt, "at")
 		}
